@@ -2,6 +2,10 @@
 
 Correspondence (A), functional.  A case is a sequence of operations on ONE endpoint object:
    [0, dgram, res]  the peer sends dgram      [1, pkt, dgram]  endpoint.send_packet(pkt)      [3]  endpoint.recv_packet()
+   [5, pkt, dgram]  send_packet(obj): ONE mutable object per case, updated IN PLACE to pkt before each such send
+   [6]  recv_packet() in a task that is cancelled one loop iteration after it started (async endpoints)
+   [7]  an asynchronous socket error (ConnectionRefusedError) is reported to the asyncio datagram protocol of the real
+        transport through error_received(), exactly what asyncio does for an ICMP error (AsyncUDPNetworkClient)
 through one of: DatagramEndpoint over a real SOCK_DGRAM socket pair, AsyncDatagramEndpoint over an in-memory transport,
 UDPNetworkClient / AsyncUDPNetworkClient over loopback UDP sockets (async ones on the deterministic loop).
 
@@ -55,14 +59,18 @@ ANCHORS = [
 ]
 RULE = ("a case = up to 6 datagrams sent by the peer (valid serializations of generated packets, and malformed ones: "
         "truncated, with surplus bytes, two valid ones merged, one split over two datagrams, a flipped byte, empty, "
-        "random) interleaved with recv_packet() calls (also on an empty queue) and send_packet() calls on ONE endpoint "
+        "random) interleaved with recv_packet() calls (also on an empty queue; on the async endpoints also in a task "
+        "cancelled one loop iteration later), asynchronous socket errors injected through error_received() of the real "
+        "asyncio protocol (async UDP client) and send_packet() calls (fresh packets, the same packet twice, runs of "
+        "packets that compare equal in Python but differ -- 1/True/1.0, [0]/[False], {'v':2}/{'v':2.0}, 0.0/-0.0 -- and "
+        "one object mutated in place between sends) on ONE endpoint "
         "object; every one-shot serializer available offline (line, JSON, JSON lines, struct, pickle, base64 over "
         "JSON/pickle with and without checksum, zlib and bz2 over JSON, JSON + converter) as a black box against "
         "fresh-instance results, and the derived one-shot interface over read_until / read_exactly test serializers "
         "(all separators incl. self-overlapping ones, limits around the payload size, with converter) computed by the "
         "model; exhaustive part: every valid/malformed pattern of length <= 3 for the derived interface x 4 endpoint "
-        "kinds. Non-trivial = a malformed datagram is followed by a valid one, or two datagrams are queued before a "
-        "receive.")
+        "kinds. Non-trivial = a malformed datagram is followed by a valid one, two items are queued before a receive, a "
+        "cancelled receive with data available, a socket error behind an unread datagram, or confusable / mutated sends.")
 TRUSTED = ["models coq/IO/Datagram.v and coq/Frame/OneShot.v hand-written from protocol.py, serializers/abc.py and the "
            "datagram endpoints; validated by execution",
            "kind 0: the serializer's own codec is not modelled; only its statelessness across datagrams through one "
@@ -240,8 +248,27 @@ def _result(fn, kind):
         return classify(exc)
     except TimeoutError:
         return [3]
+    except OSError as exc:
+        return [6, 0 if isinstance(exc, ConnectionRefusedError) else 1]
     except RuntimeError:
         return [2]
+
+
+class _Holder:
+    """the one mutable packet object of a case (op 5): updated in place, then sent again"""
+
+    def __init__(self):
+        self.obj = None
+
+    def update(self, value):
+        if self.obj is None or type(self.obj) is not type(value):
+            self.obj = type(value)()
+        if isinstance(value, dict):
+            self.obj.clear()
+            self.obj.update(value)
+        else:
+            self.obj[:] = value
+        return self.obj
 
 
 def _drain(sock):
@@ -271,13 +298,16 @@ def _run_sync(kind, cfg, ops, impl):
         ep = UDPNetworkClient(ours, proto)
     peer.setblocking(False)
     out = []
+    holder = _Holder()
     try:
         for op in ops:
             if op[0] == 0:
                 peer.send(op[1])
                 out.append([])
-            elif op[0] == 1:
+            elif op[0] in (1, 5):
                 pkt = uncanon(kind, op[1])
+                if op[0] == 5:
+                    pkt = holder.update(pkt)
                 try:
                     ep.send_packet(pkt, timeout=1.0)
                     out.append(_drain(peer))
@@ -298,6 +328,9 @@ def _run_async(kind, cfg, ops, impl):
         from easynetwork.lowlevel.api_async.backend._asyncio.backend import AsyncIOBackend
         backend = AsyncIOBackend()
         out = []
+        holder = _Holder()
+        captured = []           # (asyncio transport, asyncio protocol) pairs created by the code under test
+        settle = 0
         if impl[0] == b"async-endpoint":
             from easynetwork.lowlevel.api_async.endpoints.datagram import AsyncDatagramEndpoint
             from easynetwork.lowlevel.api_async.transports.abc import AsyncDatagramTransport
@@ -354,9 +387,22 @@ def _run_async(kind, cfg, ops, impl):
             ours.connect(peer.getsockname())
             peer.connect(ours.getsockname())
             peer.setblocking(False)
-            ep = AsyncUDPNetworkClient(ours, proto, backend)
-            await ep.wait_connected()
+            loop = asyncio.get_running_loop()
+            orig_create = loop.create_datagram_endpoint
+
+            async def spy(factory, **kw):
+                pair = await orig_create(factory, **kw)
+                captured.append(pair)
+                return pair
+
+            loop.create_datagram_endpoint = spy
+            try:
+                ep = AsyncUDPNetworkClient(ours, proto, backend)
+                await ep.wait_connected()
+            finally:
+                del loop.create_datagram_endpoint
             peer_send = peer.send
+            settle = 3          # loop iterations after which a datagram sent by the peer has reached the protocol
 
             def peer_drain():
                 return _drain(peer)
@@ -370,6 +416,24 @@ def _run_async(kind, cfg, ops, impl):
                 return classify(exc)
             except TimeoutError:
                 return [3]
+            except OSError as exc:
+                return [6, 0 if isinstance(exc, ConnectionRefusedError) else 1]
+            except RuntimeError:
+                return [2]
+
+        async def recv_cancelled():
+            from easynetwork.exceptions import DatagramProtocolParseError
+            task = asyncio.ensure_future(ep.recv_packet())
+            await asyncio.sleep(0)
+            task.cancel()
+            try:
+                return [0, canon(await task, kind)]
+            except asyncio.CancelledError:
+                return [5]
+            except DatagramProtocolParseError as exc:
+                return classify(exc)
+            except OSError as exc:
+                return [6, 0 if isinstance(exc, ConnectionRefusedError) else 1]
             except RuntimeError:
                 return [2]
 
@@ -377,10 +441,21 @@ def _run_async(kind, cfg, ops, impl):
             for op in ops:
                 if op[0] == 0:
                     peer_send(op[1])
+                    for _ in range(settle):
+                        await asyncio.sleep(0)
                     out.append([])
-                elif op[0] == 1:
+                elif op[0] == 6:
+                    out.append([await recv_cancelled()])
+                elif op[0] == 7:
+                    import errno
+                    captured[-1][1].error_received(ConnectionRefusedError(errno.ECONNREFUSED, "injected: ICMP port unreachable"))
+                    out.append([])
+                elif op[0] in (1, 5):
                     try:
-                        await ep.send_packet(uncanon(kind, op[1]))
+                        pkt = uncanon(kind, op[1])
+                        if op[0] == 5:
+                            pkt = holder.update(pkt)
+                        await ep.send_packet(pkt)
                         await asyncio.sleep(0)
                         out.append(peer_drain())
                     except RuntimeError:
@@ -502,39 +577,97 @@ def _malform(rng, valid, other):
     return [other[:1] + valid], "prefixed"
 
 
-def _schedule(rng, dgrams, sends):
-    """interleave arrivals, recvs (one per arrival + sometimes one on an empty queue) and sends"""
+def _schedule(rng, dgrams, sends, endpoint=b"sync-endpoint"):
+    """interleave arrivals (and, for the async UDP client, asynchronous socket errors), receives (one per queued item +
+    sometimes one on an empty queue; on async endpoints some are cancelled one loop iteration after they started) and
+    sends; returns (ops, feature tags)"""
+    is_async = endpoint in (b"async-endpoint", b"async-udp-client")
     ops, queued, todo = [], 0, list(dgrams)
     sends = list(sends)
-    burst = False
+    feats = set()
+    last_item_unread_dgram = False
+    nerr = 0
     while todo or queued:
         r = rng.random()
         if todo and (r < 0.45 or not queued):
             ops.append(todo.pop(0))
             queued += 1
+            last_item_unread_dgram = True
             if queued >= 2:
-                burst = True
-        elif sends and r < 0.55:
+                feats.add("burst")
+        elif endpoint == b"async-udp-client" and 0.45 <= r < 0.55 and nerr < 2:
+            ops.append([7])
+            nerr += 1
+            queued += 1
+            feats.add("sock-error-after-unread-datagram" if last_item_unread_dgram and queued >= 2 else "sock-error")
+        elif sends and r < 0.6:
             ops.append(sends.pop(0))
         else:
-            ops.append([3])
-            queued -= 1
+            if is_async and rng.random() < 0.35:
+                ops.append([6])
+                feats.add("recv-cancelled-with-data" if queued else "recv-cancelled-empty")
+                if queued:
+                    queued -= 1
+            else:
+                ops.append([3])
+                queued -= 1
+            if not queued:
+                last_item_unread_dgram = False
     ops.extend(sends)
     if rng.random() < 0.3:
-        ops.append([3])
-    return ops, burst
+        ops.append([6] if is_async and rng.random() < 0.5 else [3])
+    return ops, feats
 
 
-def _mk_case(kind, cfg, ops, impl, tags, burst):
-    # nontrivial: a malformed datagram directly followed (in arrival order) by a valid one, or a burst
+def _mk_case(kind, cfg, ops, impl, tags, feats):
+    # nontrivial: a malformed datagram directly followed (in arrival order) by a valid one, two items queued before a
+    # receive, a cancelled receive with data available, a socket error behind an unread datagram, or consecutive sends
+    # of packets that compare equal / of one object mutated in place
     arr = [op for op in ops if op[0] == 0]
     flags = [op[3] for op in arr]
     bad_then_good = any(not flags[i] and flags[i + 1] for i in range(len(flags) - 1))
     clean = [op[:3] if op[0] == 0 else op for op in ops]
     if kind != 0:
         clean = [op[:2] if op[0] in (0, 1) else op for op in clean]
-    return dict(input=[kind, cfg, clean, impl, endpoint_code(impl)], tags=tags + (["bad-then-good"] if bad_then_good else []) +
-                (["burst"] if burst else []) + [f"datagrams{len(arr)}"], nontrivial=bool(bad_then_good or burst))
+    feats = set(feats)
+    if bad_then_good:
+        feats.add("bad-then-good")
+    interesting = {"burst", "bad-then-good", "recv-cancelled-with-data", "sock-error-after-unread-datagram",
+                   "send-confusable", "send-mutated"}
+    return dict(input=[kind, cfg, clean, impl, endpoint_code(impl)], tags=tags + sorted(feats) + [f"datagrams{len(arr)}"],
+                nontrivial=bool(feats & interesting))
+
+
+JSONISH = (b"json", b"jsonl", b"b64-json", b"zlib-json", b"bz2-json", b"pickle", b"b64-pickle")
+CONFUSABLE = ([1, True, 1.0], [[0], [False], [0.0]], [{"v": 2}, {"v": 2.0}, {"v": True}], [0, False, 0.0, -0.0], ["", ""])
+
+
+def _sends(rng, impl):
+    """send ops: fresh packets, runs of packets that compare equal in Python but are different packets, and one object
+    mutated in place between sends"""
+    sends, feats = [], set()
+    r = rng.random()
+    if impl[1] in JSONISH and r < 0.3:
+        fam = list(rng.choice(CONFUSABLE))
+        rng.shuffle(fam)
+        for pkt in fam[:rng.randint(2, 3)]:
+            pc = canon(pkt)
+            sends.append([1, pc, isolated_make(0, [], impl, pc)])
+        feats.add("send-confusable")
+    elif impl[1] in JSONISH and r < 0.55:
+        base = {"seq": rng.randint(0, 3), "status": rng.choice(["ok", "ko"])}
+        for _ in range(rng.randint(2, 3)):
+            base = dict(base, seq=base["seq"] + rng.choice([0, 1, 1]))
+            pc = canon(base)
+            sends.append([5, pc, isolated_make(0, [], impl, pc)])
+        feats.add("send-mutated")
+    else:
+        for _ in range(rng.choice([0, 0, 1, 2])):
+            pc = canon(_packet(rng, impl))
+            sends.append([1, pc, isolated_make(0, [], impl, pc)])
+        if len(sends) == 2 and rng.random() < 0.5:
+            sends[1] = list(sends[0])           # the same packet twice
+    return sends, feats
 
 
 def _blackbox_case(rng, impl_ser, endpoint):
@@ -555,12 +688,9 @@ def _blackbox_case(rng, impl_ser, endpoint):
             res = isolated_build(0, [], impl, d)
             dgrams.append([0, d, res, ok and res[0] == 0])
     dgrams = dgrams[:6]
-    sends = []
-    for _ in range(rng.choice([0, 0, 1, 2])):
-        pc = canon(_packet(rng, impl))
-        sends.append([1, pc, isolated_make(0, [], impl, pc)])
-    ops, burst = _schedule(rng, dgrams, sends)
-    return _mk_case(0, [], ops, impl, sorted(tags) + [impl_ser[0].decode(), endpoint.decode(), "blackbox"], burst)
+    sends, sfeats = _sends(rng, impl)
+    ops, feats = _schedule(rng, dgrams, sends, endpoint)
+    return _mk_case(0, [], ops, impl, sorted(tags) + [impl_ser[0].decode(), endpoint.decode(), "blackbox"], feats | sfeats)
 
 
 SEPS = (b"\n", b"\r\n", b"aa", b"aba")
@@ -608,8 +738,8 @@ def _derived_case(kind, cfg, seq, endpoint, rng, tags):
             sends.append([1, bytes(rng.choice(b"pq") for _ in range(rng.randint(0, 3))), None])
         else:
             sends.append([1, bytes(rng.choice(b"pq") for _ in range(cfg[0])), None])
-    ops, burst = _schedule(rng, dgrams, sends)
-    return _mk_case(kind, cfg, ops, impl, sorted({t for _d, _ok, t in seq}) + tags + [endpoint.decode(), "derived"], burst)
+    ops, feats = _schedule(rng, dgrams, sends, endpoint)
+    return _mk_case(kind, cfg, ops, impl, sorted({t for _d, _ok, t in seq}) + tags + [endpoint.decode(), "derived"], feats)
 
 
 def cases(tier, rng, escalate):
@@ -666,11 +796,33 @@ def _expected_derived(kind, cfg, d):
 def oracle(inp):
     kind, cfg, ops, impl = inp[:4]
     out = run_impl(inp)
-    queue = []
+    queue = []          # what entered the receive queue and has not been consumed: datagrams, or "ERR" positions
+
+    def check_item(item, r):
+        if item == "ERR":
+            if r != [6, 0]:
+                return f"sock-error: the asynchronous socket error was due at this position but recv_packet gave {r!r}"
+            return None
+        d = item
+        if kind == 0:
+            want = isolated_build(kind, cfg, impl, d)
+            if r != want:
+                return f"isolation: datagram {d!r} alone gives {want!r} but gave {r!r} in sequence"
+        else:
+            want = _expected_derived(kind, cfg, d)
+            if want == "error":
+                if r[0] != 1:
+                    return f"derived: datagram {d!r} is not exactly one frame but recv_packet gave {r!r}"
+            elif r != [0, want]:
+                return f"derived: datagram {d!r} is one frame of {want!r} but recv_packet gave {r!r}"
+        return None
+
     for op, res in zip(ops, out):
         if op[0] == 0:
             queue.append(op[1])
-        elif op[0] == 1:
+        elif op[0] == 7:
+            queue.append("ERR")
+        elif op[0] in (1, 5):
             if res == [] and isolated_make(kind, cfg, impl, op[1]) == b"" and impl[0] in (b"async-endpoint", b"async-udp-client"):
                 return f"empty-datagram-dropped: send_packet({op[1]!r}) serializes to b'' and no datagram reached the peer"
             if len(res) != 1 or res[0][0] != 4:
@@ -681,22 +833,17 @@ def oracle(inp):
                 return f"roundtrip: the datagram of send_packet({op[1]!r}) deserializes to {back!r}"
         else:
             r = res[0]
+            if op[0] == 6 and r == [5]:
+                continue            # cancelled: nothing may have been consumed (checked by the following receives)
             if not queue:
                 if r != [3]:
                     return f"phantom: recv_packet on an empty queue returned {r!r}"
                 continue
-            d = queue.pop(0)
-            if kind == 0:
-                want = isolated_build(kind, cfg, impl, d)
-                if r != want:
-                    return f"isolation: datagram {d!r} alone gives {want!r} but gave {r!r} in sequence"
-            else:
-                want = _expected_derived(kind, cfg, d)
-                if want == "error":
-                    if r[0] != 1:
-                        return f"derived: datagram {d!r} is not exactly one frame but recv_packet gave {r!r}"
-                elif r != [0, want]:
-                    return f"derived: datagram {d!r} is one frame of {want!r} but recv_packet gave {r!r}"
+            if r == [3]:
+                return f"lost: {len(queue)} item(s) were handed to the endpoint and not consumed, but recv_packet found nothing"
+            f = check_item(queue.pop(0), r)
+            if f:
+                return f
     return None
 
 
